@@ -97,8 +97,19 @@ def mutate(rng: Rng, text: str, force_tag: bool = False) -> tuple[str, str]:
     toks = TOKEN.findall(text)
     if len(toks) < 4:
         return text, "none"
-    kind = rng.choice(["delete", "dup", "swap", "truncate", "bracket", "keyword", "quote", "replace", "replace", "replace_open", "squeeze", "squeeze"])
+    kind = rng.choice(["delete", "dup", "swap", "truncate", "bracket", "keyword", "quote", "replace", "replace", "replace_open", "squeeze", "squeeze", "ident_pos", "ident_pos"])
     i = rng.randrange(len(toks))
+    if kind == "ident_pos":
+        # a position where only an identifier is grammatical (after FROM / JOIN / AS / TABLE / INTO / UPDATE)
+        # gets an identifier with an unusual LEXICAL class: matchers that go by the raw text accept it,
+        # hints that go by the token type may not
+        code = [j for j, t in enumerate(toks) if not t.isspace()]
+        pos = [code[k_ + 1] for k_ in range(len(code) - 1)
+               if toks[code[k_]].upper() in ("FROM", "JOIN", "AS", "TABLE", "INTO", "UPDATE") and (toks[code[k_ + 1]][0].isalpha() or toks[code[k_ + 1]][0] in "_\"`[")]
+        if pos:
+            toks[rng.choice(pos)] = rng.choice(["1e5", "2E3", "10e2", "_1", "x1e5", "e5", "\"1e5\"", "a$b", "tbl#1", "été"])
+            return "".join(toks), kind
+        kind = "replace"
     if kind == "squeeze":
         # drop the whitespace between a bracket / quote and a word (`SUM(x)FROM t`, `'a'AS b`): still
         # lexes into the same tokens, but keyword matchers that want preceding whitespace see none
